@@ -2,3 +2,5 @@
 #![allow(unused)]
 #[cfg(kani)]
 mod c12;
+#[cfg(kani)]
+mod c14;
